@@ -145,6 +145,33 @@ CHECKS: dict[str, tuple[str, str, str, str]] = {
         "trusted: the set predicates in pv/checks/c12.py; Unicode property rules are compared across modes only",
         "DESIGN.md 4/C12",
     ),
+    "C08": (
+        "metamorphic monitor: text-level rewrites (spans from the meta-grammar oracle) vs the original grammar's result in the same mode",
+        "On the bundled real-world grammars every untagged term and every sequence/choice chain is a rewrite site; six rewrite kinds, "
+        "singly or 2-4 combined and nested, are spliced into the grammar text, which is then loaded through the whole pipeline; in "
+        "each of the 4 modes the result on corpus inputs and their mutants must equal the original grammar's. Hooks count how often "
+        "the rewritten site was actually exercised.",
+        "NEVER = a literal with U+E000 absent from all inputs; tagged terms are excluded by rule; trees or 'failed' are compared",
+        "DESIGN.md 4/C08",
+    ),
+    "C15": (
+        "history monitor against a fresh-process oracle + thread stress with sys.monitoring yield injection against a sequential baseline",
+        "Long seeded histories of parser creation (all optimizer settings), code generation and succeeding/failing parses with an "
+        "observed call every third operation, compared with the same call in a fresh interpreter process; and short multi-threaded "
+        "runs (8-16 threads on shared objects, 1 us switch interval, seeded sleep(0) on LINE events inside pest and generated frames, "
+        "concurrent builders) compared with the single-threaded baseline. The evidence reports switches and yields actually observed.",
+        "the fresh-process result is the specification; CPython GIL: byte-code interleavings are sampled, not enumerated",
+        "DESIGN.md 4/C15",
+    ),
+    "C17": (
+        "reference-model monitor: json.loads + generator token tree for JSON, an independent recursive-descent evaluator for the calculators",
+        "Generated RFC 8259 documents (with the generator's own token tree, validated by json.loads) must be accepted by both bundled "
+        "JSON grammars in 4 modes with a mirroring parse tree, and every proper prefix must be rejected; generated arithmetic "
+        "expressions are evaluated by the three bundled calculators on pairs from all modes and through their own entry points and "
+        "compared with a reference written from the documented precedence table.",
+        "json.loads is the JSON reference; abstention guard on huge factorials / exponents; parser modules regenerated into a temp copy",
+        "DESIGN.md 4/C17",
+    ),
 }
 
 PENDING_REASON = "check not built yet in this revision of /verif (runtime monitor planned, see DESIGN.md section 4)"
